@@ -123,6 +123,8 @@ def _mk_sym(c, name, cb=None):
     n = 2
     if name == 'MH': return EX.MH(_sym_target(c), scale=c.real('scale0', pos=True), initial_point=c.vec('x0', n), callback=cb)
     if name == 'MALA': return EX.MALA(_sym_target(c), scale=c.real('scale0', pos=True), initial_point=c.vec('x0', n), callback=cb)
+    if name == 'ULA': return EX.ULA(_sym_target(c), scale=c.real('scale0', pos=True), initial_point=c.vec('x0', n), callback=cb)
+    if name == 'CWMH': return EX.CWMH(_sym_target(c), scale=c.real('scale0', lo=0, hi=1), initial_point=c.vec('x0', n), callback=cb)
     if name == 'PCN':
         from cuqi.likelihood import UserDefinedLikelihood
         x = Gaussian(c.vec('pm', n), c.vec('pv', n, pos=True), name='x')
@@ -134,11 +136,14 @@ def _queue(c, name, T, n=2):
     """name the random draws of T transitions (the same symbols for every run of the contract)"""
     for t in range(T):
         z = c.vec(f'xi{t}_', n)
-        if name == 'MALA': q = z
+        if name in ('MALA', 'ULA'): q = z
+        elif name == 'CWMH': q = z.reshape(1, n)            # Normal proposal: an (N, dim) array, transposed
         else: q = z.reshape(n, 1)
         if c.sym: shims.PRESET['normal'].append(q)
         else: c._numq['normal'].append(q); c._patch_random()
-        c.next_uniform(f'u{t}')
+        if name == 'CWMH':
+            for j in range(n): c.next_uniform(f'u{t}_{j}')   # one uniform per component
+        elif name != 'ULA': c.next_uniform(f'u{t}')
 
 
 def _clear_queue(c):
@@ -149,7 +154,7 @@ def _clear_queue(c):
 def sym_resume(c, name, T=2):
     """uninterrupted: initialise, tune (scale changes), T transitions.  resumed: FRESH sampler, set_state(state after tuning), same draws"""
     s = _mk_sym(c, name); s.initialize()
-    s._acc = [1, 0, 1, 1]
+    s._acc = [1, 0, 1, 1] if name != 'CWMH' else [np.array([1, 0]), np.array([0, 0]), np.array([1, 1]), np.array([1, 0])]
     s.tune(2, 0)                                   # warm-up moved the tuned state away from the constructed one
     saved = s.get_state()
     _queue(c, name, T)
@@ -160,7 +165,7 @@ def sym_resume(c, name, T=2):
     _queue(c, name, T)
     accs2 = [s2.step() for _ in range(T)]
     after2 = s2.get_state()['state']
-    c.holds('same_acceptance_decisions', accs == accs2)
+    c.holds('same_acceptance_decisions', all(np.array_equal(np.asarray(a1, dtype=float), np.asarray(a2, dtype=float)) for a1, a2 in zip(accs, accs2)))
     for k in sorted(after):
         c.eq(f'state[{k}]_after_resumed_transitions_equals_uninterrupted', after2[k], after[k])
 
@@ -231,11 +236,11 @@ def jobs(tier):
                 J.append(Job(f'experimental.{name}:resume_via_{via}:checkpoint_at={k}', lambda c, n=name, v=via, k=k: resume(c, n, v, k), 'B', FL, nnum=2))
         J.append(Job(f'experimental.{name}:recording_and_callback', lambda c, n=name: recording(c, n), 'B', FL, nnum=2))
         J.append(Job(f'experimental.{name}:reinitialize', lambda c, n=name: reinit(c, n), 'B', FL, nnum=1))
-    for name in ('MH', 'PCN', 'MALA'):
-        mod = {'MH': '_mh:MH', 'PCN': '_pcn:PCN', 'MALA': '_langevin_algorithm:MALA'}[name]
+    for name in ('MH', 'PCN', 'MALA', 'ULA') + (() if q else ('CWMH',)):       # CWMH: 2 components x 2-3 transitions = several hundred paths (thorough tier)
+        mod = {'MH': '_mh:MH', 'PCN': '_pcn:PCN', 'MALA': '_langevin_algorithm:MALA', 'ULA': '_langevin_algorithm:ULA', 'CWMH': '_cwmh:CWMH'}[name]
         J.append(Job(f'experimental.{name}:symbolic:resume_in_fresh_sampler_after_tuning', lambda c, n=name: sym_resume(c, n), 'Pbox',
-                     FL + [f'cuqi.experimental.mcmc.{mod}.step', f'cuqi.experimental.mcmc.{mod}.tune'], maxpaths=1024, timeout=400, num=False))
-        J.append(Job(f'experimental.{name}:symbolic:recording_and_callback', lambda c, n=name: sym_recording(c, n), 'Pbox', FL, maxpaths=1024, timeout=400, num=False))
+                     FL + [f'cuqi.experimental.mcmc.{mod}.step', f'cuqi.experimental.mcmc.{mod}.tune'], maxpaths=1024, timeout=900, num=False))
+        J.append(Job(f'experimental.{name}:symbolic:recording_and_callback', lambda c, n=name: sym_recording(c, n, 1 if n == 'CWMH' else 2), 'Pbox', FL, maxpaths=2048, timeout=900, num=False))
     LS = 'cuqi.sampler._sampler'
     for name in LEG:
         for adapt in (False, True):
